@@ -126,21 +126,61 @@ theorem matchIn_agrees {d : Doc} {path : String} (hd : PathDom d path) (vs : Lis
 
 /-! ### $exists -/
 
-theorem existsArg_truthy (v : V) (h : isDec v = false) : existsArg v = truthy v := by
+theorem pow10_ne_zero (e : Int) : pow10 e ≠ 0 := by
+  unfold pow10
+  split
+  · have : (10 ^ e.toNat : Nat) ≠ 0 := Nat.pos_iff_ne_zero.mp (Nat.pow_pos (by decide))
+    intro h
+    exact this (by exact_mod_cast h)
+  · have : (10 ^ (-e).toNat : Nat) ≠ 0 := Nat.pos_iff_ne_zero.mp (Nat.pow_pos (by decide))
+    rw [Ne, Rat.mkRat_eq_zero this]
+    decide
+
+theorem rat_neg_eq_zero (q : Rat) : -q = 0 ↔ q = 0 := by
+  constructor
+  · intro h; have := congrArg (fun x => -x) h; simpa [Rat.neg_neg] using this
+  · intro h; subst h; rfl
+
+/-- a decoded finite Decimal128 (sign, coefficient, exponent) is zero exactly when its coefficient is -/
+theorem decFin_ne_zero (neg : Bool) (c : Nat) (e : Int) :
+    ((if neg = true then -((c : Rat) * pow10 e) else (c : Rat) * pow10 e) != 0) = (c != 0) := by
+  have hq : ((c : Rat) * pow10 e = 0) ↔ c = 0 := by
+    rw [Rat.mul_eq_zero]
+    constructor
+    · rintro (h | h)
+      · exact_mod_cast h
+      · exact absurd h (pow10_ne_zero e)
+    · intro h; subst h; exact Or.inl rfl
+  by_cases hc : c = 0
+  · subst hc; cases neg <;> simp
+  · have h1 : ¬ ((c : Rat) * pow10 e = 0) := fun h => hc (hq.mp h)
+    have h2 : ¬ (-((c : Rat) * pow10 e) = 0) := fun h => h1 ((rat_neg_eq_zero _).mp h)
+    have hb : (c != 0) = true := by rw [bne_iff_ne]; exact hc
+    rw [hb]
+    cases neg
+    · simp only [Bool.false_eq_true, ↓reduceIte, bne_iff_ne]; exact h1
+    · simp only [↓reduceIte, bne_iff_ne]; exact h2
+
+/-- lungo's reading of the `$exists` argument is MongoDB's truthiness, for EVERY value (Decimal128
+    included: ±0 of any exponent is falsy, NaN and the infinities are truthy) -/
+theorem existsArg_truthy (v : V) : existsArg v = truthy v := by
   cases v with
   | f64 b => simp only [existsArg, truthy]; cases f64Val b <;> rfl
-  | dec a b => simp [isDec] at h
+  | dec h l =>
+    simp only [existsArg, truthy, decVal]
+    cases decParts h l with
+    | fin neg c e => exact (decFin_ne_zero neg c e).symm
+    | _ => rfl
   | _ => rfl
 
 theorem cand_not_missing {d : Doc} {p : Path} (hd : noNestedArrays (.doc d) = true)
     {c : V × Bool} (hc : c ∈ cand (.doc d) p) : c.1.isMissing = false :=
   nna_not_missing (cand_nna p (.doc d) false hd c hc)
 
-theorem matchExists_agrees {d : Doc} {path : String} (hd : PathDom d path) (arg : V)
-    (hdec : isDec arg = false) :
+theorem matchExists_agrees {d : Doc} {path : String} (hd : PathDom d path) (arg : V) :
     matchExists d path arg = toRes (truthy arg == !(cand (.doc d) (splitPath path)).isEmpty) := by
   unfold matchExists
-  rw [existsArg_truthy arg hdec]
+  rw [existsArg_truthy arg]
   by_cases hf : fans (.doc d) (splitPath path) = true
   · rw [(All_fan d _ hd.nna hd.segs hf).1]
     simp only [↓reduceIte, List.isEmpty_map]
@@ -489,168 +529,55 @@ theorem matchSize_agrees {d : Doc} {path : String} (hd : PathDom d path) (v : V)
 
 /-! ### $all -/
 
-/-- the test lungo's `$all` callback performs on an offered value -/
-def allPred (vs : List V) (field : V) : Bool :=
-  !vs.isEmpty &&
-    ((match field with
-      | .arr a => vs.all fun value => a.any fun el => V.cmp value el == .eq
-      | _ => false) || vs.all (fun item => V.cmp field item == .eq))
+/-- the equality test of `$eq v` on an offered value -/
+def eqPred (v : V) (field : V) : Bool := field.cls == v.cls && V.cmp field v == .eq
 
+theorem matchComp_eq_toRes (d : Doc) (path : String) (v : V) :
+    matchComp d "$eq" path v = toRes (unwindAny d path true false (eqPred v)) := by
+  rw [matchComp_eq_bool, matchUnwind_toRes]; rfl
+
+/-- matchAll's loop is the conjunction of the `$eq` conditions (for EVERY document) -/
+theorem allLoop_toRes (d : Doc) (path : String) (vs : List V) :
+    allLoop d path vs = toRes (vs.all fun v => unwindAny d path true false (eqPred v)) := by
+  induction vs with
+  | nil => rfl
+  | cons v r ih =>
+    rw [allLoop, matchComp_eq_toRes, List.all_cons]
+    cases unwindAny d path true false (eqPred v) with
+    | false => rfl
+    | true => simpa [toRes] using ih
+
+/-- `$all vs` = `vs ≠ []` and every `{path: {$eq: v}}`, `v ∈ vs`, holds (for EVERY document) -/
 theorem matchAll_bool (d : Doc) (path : String) (vs : List V) :
-    matchAll d path (.arr vs) = toRes (unwindAny d path false true (allPred vs)) := by
-  rw [← matchUnwind_toRes]
+    matchAll d path (.arr vs) =
+      toRes (!vs.isEmpty && vs.all fun v => unwindAny d path true false (eqPred v)) := by
   unfold matchAll
-  congr 1
-  funext field
-  unfold boolOp allPred
   by_cases he : vs.isEmpty = true
-  · simp [he, notMatched]
+  · simp [he, toRes, notMatched]
   · simp only [he, Bool.false_eq_true, ↓reduceIte, Bool.not_false, Bool.true_and]
-    cases field with
-    | arr xs =>
-      simp only
-      by_cases hA : (vs.all fun value => xs.any fun el => V.cmp value el == .eq) = true
-      · simp [hA]
-      · simp only [hA, Bool.false_eq_true, ↓reduceIte, Bool.false_or]
-        by_cases hB : (vs.all fun item => V.cmp (V.arr xs) item == .eq) = true <;> simp [hB, notMatched]
-    | _ => simp [notMatched]
+    exact allLoop_toRes d path vs
 
-theorem cmp_eq_symm (a b : V) : (V.cmp a b == .eq) = (V.cmp b a == .eq) := by
-  rw [V.cmp_swap b a]
-  cases V.cmp b a <;> rfl
-
-theorem cmp_arr_nonarr (xs : List V) (v : V) (hv : v.isArr = false) : (V.cmp (.arr xs) v == .eq) = false := by
-  cases h : V.cmp (.arr xs) v == .eq with
-  | false => rfl
-  | true =>
-    have := cmp_eq_cls' (.arr xs) v (by simpa using h)
-    cases v <;> simp_all [V.cls, V.isArr]
-
-theorem allPred_nonarr (vs : List V) (hne : vs.isEmpty = false) (l : V) (hl : l.isArr = false) :
-    allPred vs l = vs.all (fun v => V.cmp l v == .eq) := by
-  unfold allPred
-  cases l <;> simp_all [V.isArr]
-
-/-- the heart of `$all`: over offered values `A` (no arrays among them, no arrays among the
-    members) "one value equals all members, or every member is found in `A`" is "every member
-    equals some value of `A`". -/
-theorem all_core (vs A : List V) (hne : vs.isEmpty = false)
-    (hA : ∀ el ∈ A, el.isArr = false) (hvs : ∀ v ∈ vs, v.isArr = false) :
-    (A.any (allPred vs) || allPred vs (.arr A)) = vs.all (fun v => A.any (fun l => V.cmp l v == .eq)) := by
-  have h1 : A.any (allPred vs) = A.any (fun l => vs.all (fun v => V.cmp l v == .eq)) :=
-    any_congr_mem fun l hl => allPred_nonarr vs hne l (hA l hl)
-  have h2 : allPred vs (.arr A) = vs.all (fun v => A.any (fun l => V.cmp l v == .eq)) := by
-    unfold allPred
-    have h3 : vs.all (fun item => V.cmp (.arr A) item == .eq) = false := by
-      cases vs with
-      | nil => simp at hne
-      | cons v r => simp [cmp_arr_nonarr A v (hvs v (by simp))]
-    simp only [hne, Bool.not_false, Bool.true_and, h3, Bool.or_false]
-    congr 1
-    funext v
-    congr 1
-    funext el
-    exact cmp_eq_symm v el
-  rw [h1, h2]
-  -- ∃l ∀v  implies  ∀v ∃l
-  cases hX : A.any (fun l => vs.all (fun v => V.cmp l v == .eq)) with
-  | false => simp
-  | true =>
-    simp only [Bool.true_or]
-    symm
-    rw [List.all_eq_true]
-    intro v hv
-    obtain ⟨l, hl, hlv⟩ := List.any_eq_true.mp hX
-    exact List.any_eq_true.mpr ⟨l, hl, List.all_eq_true.mp hlv v hv⟩
-
-theorem allSpec_nil (ls : List V) : (!([] : List V).isEmpty && ([] : List V).all fun v => ls.any fun l => V.cmp l v == .eq) = false := rfl
+/-- equal values are of the same class: the bracketed and the plain equality test coincide -/
+theorem cmpHolds_eq (v l : V) : cmpHolds .eq v l = (V.cmp l v == .eq) := by
+  have hr : CmpOp.eq.rel (V.cmp l v) = (V.cmp l v == .eq) := rfl
+  unfold cmpHolds
+  rw [hr]
+  cases h : V.cmp l v == .eq with
+  | false => exact Bool.and_false _
+  | true => rw [cmp_eq_cls' l v (by simpa using h)]; rfl
 
 theorem matchAll_agrees {d : Doc} {path : String} (hd : PathDom d path) (vs : List V)
-    (hnf : fans (.doc d) (splitPath path) = false → vs.all (fun v => !v.isArr) = true)
-    (hfan : fans (.doc d) (splitPath path) = true →
-      vs.all scalarOperand = true ∧ (cand (.doc d) (splitPath path)).all (fun c => !c.1.isArr) = true) :
+    (hfan : fans (.doc d) (splitPath path) = true → vs.all scalarOperand = true) :
     matchAll d path (.arr vs) =
       toRes (!vs.isEmpty && vs.all fun v => (leafs d (splitPath path)).any fun l => V.cmp l v == .eq) := by
   rw [matchAll_bool]
-  congr 1
-  by_cases hne : vs.isEmpty = true
-  · -- no members: never matches
-    have : allPred vs = fun _ => false := by funext l; simp [allPred, hne]
-    unfold unwindAny
-    rw [this]
-    simp only [hne, Bool.not_true, Bool.false_and]
-    generalize All d (splitPath path) true false = r
-    obtain ⟨value, multi⟩ := r
-    cases value <;> simp
-  · have hne' : vs.isEmpty = false := by simpa using hne
-    simp only [hne', Bool.not_false, Bool.true_and]
-    by_cases hf : fans (.doc d) (splitPath path) = true
-    · obtain ⟨hsc, hca⟩ := hfan hf
-      have hvs : ∀ v ∈ vs, v.isArr = false := by
-        intro v hv
-        have := List.all_eq_true.mp hsc v hv
-        cases v <;> simp_all [scalarOperand, V.isArr]
-      unfold unwindAny
-      rw [(All_fan d _ hd.nna hd.segs hf).1]
-      simp only [Bool.not_true, Bool.or_true, Bool.true_and]
-      have hA : ∀ el ∈ (cand (.doc d) (splitPath path)).map (·.1), el.isArr = false := by
-        intro el hel
-        obtain ⟨c, hc, rfl⟩ := List.mem_map.mp hel
-        simpa using List.all_eq_true.mp hca c hc
-      rw [all_core vs _ hne' hA hvs]
-      unfold leafs leafsAt
-      cases hcs : cand (.doc d) (splitPath path) with
-      | nil =>
-        -- nothing reached: lungo offers nothing, the reference offers `missing`; a non-null scalar
-        -- member equals neither
-        cases vs with
-        | nil => simp at hne'
-        | cons v r =>
-          have hv := scalar_cls (List.all_eq_true.mp hsc v (by simp))
-          have : (V.cmp .missing v == .eq) = false := by
-            cases h : V.cmp .missing v == .eq with
-            | false => rfl
-            | true =>
-              have := cmp_eq_cls' .missing v (by simpa using h)
-              simp only [V.cls, beq_iff_eq] at this
-              exact absurd this.symm hv.1
-          simp [this]
-      | cons c cs =>
-        simp only
-        congr 1
-        funext v
-        rw [← hcs, List.any_flatMap, List.any_map]
-        apply any_congr_mem
-        intro x hx
-        have hxa : x.1.isArr = false := by simpa using List.all_eq_true.mp hca x hx
-        cases hx1 : x.1 <;> simp_all [expand, V.isArr]
-    · have hf' : fans (.doc d) (splitPath path) = false := by simpa using hf
-      have hvs : ∀ v ∈ vs, v.isArr = false := by
-        intro v hv; simpa using List.all_eq_true.mp (hnf hf') v hv
-      obtain ⟨h1, h2⟩ := All_noFan d (splitPath path) true false hd.nna hd.segs hf'
-      unfold unwindAny leafs leafsAt
-      rw [h1]
-      simp only [Bool.not_false, Bool.true_or, Bool.true_and]
-      cases hcs : cand (.doc d) (splitPath path) with
-      | nil =>
-        simp only [single, List.any_cons, List.any_nil, Bool.or_false, Bool.false_or]
-        exact allPred_nonarr vs hne' .missing rfl
-      | cons c cs =>
-        have : cs = [] := by rw [hcs] at h2; simpa using h2
-        subst this
-        have hcn : noNestedArrays c.1 = true := cand_nna _ _ false hd.nna c (by rw [show candF (.doc d) (splitPath path) false = cand (.doc d) (splitPath path) from rfl, hcs]; simp)
-        cases hc1 : c.1 with
-        | arr a =>
-          simp only [single, hc1, List.flatMap_cons, List.flatMap_nil, List.append_nil, expand]
-          rw [hc1, noNestedArrays] at hcn
-          have hA : ∀ el ∈ a, el.isArr = false := fun el hel => (nna_elem hcn hel).1
-          rw [all_core vs a hne' hA hvs]
-          apply all_congr_mem
-          intro v hv
-          simp [cmp_arr_nonarr a v (hvs v hv)]
-        | _ =>
-          simp only [single, hc1, List.flatMap_cons, List.flatMap_nil, List.append_nil, expand,
-            List.any_cons, List.any_nil, Bool.or_false, Bool.false_or]
-          exact allPred_nonarr vs hne' _ rfl
+  congr 2
+  apply all_congr_mem
+  intro v hv
+  have key := cmp_core hd v CmpOp.eq.rel (fun hf => List.all_eq_true.mp (hfan hf) v hv)
+  refine Eq.trans key ?_
+  apply any_congr_mem
+  intro l _
+  exact cmpHolds_eq v l
 
 end Lungo
